@@ -152,7 +152,7 @@ def reusable(st):
         return True
     if t == "split":
         return all(reusable(b) for b in st["brs"])
-    if t == "seqbr":
+    if t in ("seqbr", "runifs"):
         return all(reusable(b) for b in st["body"])
     return False
 
@@ -194,6 +194,33 @@ class IncHolder(object):
 
     def apply(self, v):
         return (num(v[0]) + self.k, v[1]) if has_ctx(v) else num(v) + self.k
+
+
+class StageError(ValueError):
+    pass
+
+
+def raiser(at, e):
+    """A plain callable: the identity, but it raises for the value whose data is *at* (spec Raiser(at, e))."""
+    def stop(v):
+        return next(iter(()))          # StopIteration, like next() on another, shorter stream
+
+    def value(v):
+        raise StageError("bad value")
+
+    def lena_exc(v):
+        import lena.core
+        raise lena.core.LenaValueError("bad value")
+    fail = {"stop": stop, "value": value, "lena": lena_exc}[e]
+
+    def identity_or_raise(v):
+        if num(data_of(v)) == at:
+            return fail(v)
+        return v
+    return identity_or_raise
+
+
+TUPLE_BAD = ("tup_acc", "tup_acc1", "tup_count", "tup_f")      # a single tuple argument is documented as allowed
 
 
 def _map_callable(f):
@@ -281,6 +308,8 @@ def build_branch(br, pairs, use_context_el):
         return [(f, acc), lena.core.FillComputeSeq(f, acc), (f, acc), lena.core.FillComputeSeq(f, acc)][k]
     if br["t"] == "seqbr":
         els = [build_stage(x, pairs, use_context_el) for x in br["body"]]
+        if BRANCH_NEST[0] % 5 == 4:
+            return (S(els[0]),) + tuple(els[1:])       # a tuple branch that holds a nested Sequence
         if k == 0:
             return S(*els)
         if k == 1:
@@ -307,6 +336,16 @@ def build_stage(st, pairs=True, use_context_el=False):
         return lena.flow.Slice(a, b, s)
     if t == "lastattr":
         return LastAttr()
+    if t == "raiser":
+        return raiser(st["at"], st["e"])
+    if t == "runifs":
+        # RunIf(select, e1, ..., en): the arguments in one of their bracketings into nested Sequences
+        S = lena.core.Sequence
+        els = [build_stage(x, pairs, use_context_el) for x in st["body"]]
+        a, rest = els[0], els[1:]
+        args = [els, [S(*els)], [S(a)] + rest, [S(a)] + [S(x) for x in rest], [a] + [S(*rest)] if rest else [S(S(a))],
+                [S()] + els, [S(S(a))] + rest][BRANCH_NEST[0] % 7]
+        return lena.flow.RunIf(_pred(st["p"]), *args)
     if t == "map":
         f = st["f"]
         if f in ("inc", "dbl", "tag", "nul", "cls", "meth", "part"):
@@ -353,10 +392,18 @@ def build_stage(st, pairs=True, use_context_el=False):
     if t == "split":
         return lena.core.Split([build_branch(b, pairs, use_context_el) for b in st["brs"]], bufsize=_n(st["bs"]))
     if t == "bad":
-        return {"int": 5, "str": "abc", "obj": NoRun(), "none": None, "dict": {},
-                "runnone": RunNotCallable(), "rundata": RunIsData(),
-                "zero": 0, "estr": "", "edict": {}, "elist": [], "false": False, "float": 2.5,
-                "fillonly": FillOnly(), "fillattr": FillComputeData(), "fillreq": FillRequestOnly()}[st["k"]]
+        inc, dbl = _map_callable("inc"), _map_callable("dbl")
+        make = {"int": lambda: 5, "str": lambda: "abc", "obj": NoRun, "none": lambda: None, "dict": dict,
+                "runnone": RunNotCallable, "rundata": RunIsData,
+                "zero": lambda: 0, "estr": lambda: "", "edict": dict, "elist": list, "false": lambda: False,
+                "float": lambda: 2.5, "fillonly": FillOnly, "fillattr": FillComputeData, "fillreq": FillRequestOnly,
+                # containers that hold elements
+                "tup_acc": lambda: (inc, lena.math.Sum()), "tup_acc1": lambda: (lena.math.Sum(),),
+                "list_acc": lambda: [lena.math.Mean()], "list_facc": lambda: [inc, lena.flow.StoreFilled()],
+                "tup_count": lambda: (lena.flow.Count(),), "list_f": lambda: [inc],
+                "tup_f": lambda: (inc, dbl), "set_acc": lambda: {Last()},
+                "dict_acc": lambda: {"a": lena.math.Sum()}, "list_run": lambda: [lena.flow.Slice(1)]}
+        return make[st["k"]]()
     raise ValueError("unknown stage %r" % (st,))
 
 
